@@ -729,6 +729,21 @@ def monitor_history(ops, obs):
                     cnt = 0 if mm.group(1) == "" else mm.group(1).count(",") + 1
                     if cnt != s["len"]:
                         fails.append((i, ["C10"], "slot s%d: length %d but %d elements visible" % (k, s["len"], cnt)))
+        # C11: block-address kinds store the block start; all data-address handles of one allocation
+        # store the same address, and a slot that keeps its block keeps its address across the op
+        data_off = {}
+        for k, s in post.items():
+            if s["kind"] in ("arc", "uniq", "thin", "rawThin"):
+                if s["off"] != 0:
+                    fails.append((i, ["C11"], "slot s%d (%s) stores offset %d, a %s handle stores the block address" % (k, s["kind"], s["off"], s["kind"])))
+            elif s["kind"] in ("raw", "offset", "unionA", "unionB"):
+                if s["off"] == 0:
+                    fails.append((i, ["C11"], "slot s%d (%s) stores the block address, it must store the value's address" % (k, s["kind"])))
+                if data_off.setdefault(s["blk"], s["off"]) != s["off"]:
+                    fails.append((i, ["C11"], "two handles to b%d store different value addresses (+%d vs +%d)" % (s["blk"], data_off[s["blk"]], s["off"])))
+        for k, s in pre.items():
+            if k in post and post[k]["blk"] == s["blk"] and post[k]["kind"] == s["kind"] and post[k]["off"] != s["off"]:
+                fails.append((i, ["C11"], "slot s%d: the stored address moved from +%d to +%d while the allocation lives" % (k, s["off"], post[k]["off"])))
         # C12: a union slot keeps its variant and block until it is dropped
         for k, s in pre.items():
             if s["kind"] in ("unionA", "unionB") and k in post and f[0] not in ("drop", "dropAll") and post[k] is not None:
